@@ -168,8 +168,17 @@ theorem C19_step_inv (iv : Iv) (op : Op) (iv' : Iv) (h : StoreInv iv)
       exact hc
     · cases hs
 
-/-- run a history of assignments; a rejected one (exception) leaves the state unchanged -/
+/-- run a history of assignments. A step `step` flags `none` is OUTSIDE the
+property's quantifier (`initialized_size` above `size`, a whole-contents
+assignment longer than `size`): the code does not raise there, it accepts the
+assignment and the stored bytes then exceed `size` (example below). `run` skips
+such steps, i.e. `C19_history` speaks of the histories all of whose steps lie
+inside the quantifier; an out-of-range poke (`IndexError`, raised before any
+change) is the only step that is really rejected. -/
 def run (iv : Iv) (ops : List Op) : Iv := ops.foldl (fun s op => (step s op).getD s) iv
+
+/-- outside the quantifier the invariant can indeed be broken (by design of the API) -/
+example : ¬ StoreInv (setInit ⟨2, []⟩ 3) := by unfold StoreInv; decide
 
 theorem C19_history (iv : Iv) (ops : List Op) (h : StoreInv iv) : StoreInv (run iv ops) := by
   unfold run
